@@ -308,7 +308,9 @@ def validate(traces, dev="", attr_mode="seq", batch=4000):
     -> ([{reached, len, accepted}] per trace, [TLCResult])"""
     if not traces:
         return [], []
-    batches = [traces[i:i + batch] for i in range(0, len(traces), batch)]
+    nb = 1 if len(traces) < 600 else max(min(tlc.NCPU, len(traces) // 300), (len(traces) + batch - 1) // batch)
+    size = (len(traces) + nb - 1) // nb
+    batches = [traces[i:i + size] for i in range(0, len(traces), size)]
     work = tlc.scratch("vt-restr-")
 
     def one(i):
